@@ -76,6 +76,20 @@ class C11(Prop):
                                          "route": route, "clauses": cl}, **f))
         if tier != "thorough":
             out = [c for k, c in enumerate(out) if k % 2 == 0 or c["src"] == "ref"]
+        # payloads whose members are named like keys of the metafile itself ("info", "pieces", "announce" ...), other
+        # tree shapes, and text fields that contain bencoded-looking text: the info dictionary is still the top-level one
+        from .e1 import SHAPES
+        for v in (1, 2, 3):
+            reqs = [0] + ([1, 2, 3] if v == 3 else [])
+            for sh in ("DKEY", "DX", "D5", "DU"):
+                sizes = tuple((5, B + 1, 2 * B, 7)[k % 4] for k in range(len(SHAPES[sh])))
+                for req in reqs:
+                    for src in ("own", "ref"):
+                        out.append({"src": src, "version": v, "P": B, "tree": mk_tree(sh, sizes), "request": req,
+                                    "route": "cli" if (v + req) % 2 else "lib",
+                                    "opts": {"announce": [URLS[0]], "comment": "4:infod4:name1:xe", "source": "d4:infode"},
+                                    "extra_top": {"announce": URLS[0], "comment": "4:infod4:name1:xe", "zz": {"info": {"name": "decoy"}}},
+                                    "clauses": cl})
         # content of total length 0 (empty piece string / no roots): still v1 and / or v2 content
         for v in (1, 2, 3):
             reqs = [0] + ([1, 2, 3] if v == 3 else [])
